@@ -132,6 +132,8 @@ pub fn run(run: &Run) {
             false
         }
     }));
+    huge_section(run, false, &profs, &|p, s, l| check(run, p, s, l));
+    concurrent_distinct(run, &profs, &concurrent_unit, &|p, s, l| check(run, p, s, l));
     collisions(run, "fingerprint_collisions", &|s, l| profs.iter().all(|p| match check(run, *p, s, l) {
         Ok(()) => true,
         Err(v) => {
@@ -153,6 +155,6 @@ pub fn run(run: &Run) {
 
 pub fn replay(run: &Run, case: &Value) -> Check {
     let p = Prof::from_name(case["profile"].as_str().unwrap()).expect("profile");
-    let s = jget_str(case, "input").unwrap();
+    let s = super::pipe::replay_input(case);
     check(run, p, &s, &mut Local::default())
 }
